@@ -339,7 +339,9 @@ class Signal(np.lib.mixins.NDArrayOperatorsMixin):
         :py:func:`dask.array.rechunk`.
         """
         if chunks is None:
-            chunks = (-1,) + ("auto",) * (self.ndim - 1)
+            # Dask cannot pick "auto" chunks for an empty array
+            auto = "auto" if len(self) else -1
+            chunks = (-1,) + (auto,) * (self.ndim - 1)
 
         x = dask.array.asanyarray(self.data)
         return type(self).like(self, x.rechunk(chunks, **kwargs))
